@@ -22,6 +22,7 @@ func propC15() *Property {
 			{ID: "R15.3", Floor: 10, Text: "every blocking select/send/receive in pkg/protocol (session, underlay, mux) has a shutdown alternative (closedChan, done, ctx.Done, timer) or a default case", Run: r15_3},
 			{ID: "R15.5", Floor: 1, Text: "after RunEventLoop returns, for whatever reason, the goroutine that ran it closes the underlay on every path", Run: r15_5},
 			{ID: "R15.6", Floor: 2, Text: "a stored deadline always arms a timer in Read and writeChunk (also when it has already passed)", Run: r15_6},
+			{ID: "R15.8", Floor: 1, Text: "the datagram underlay's idle sweep judges a session by what it last received, never by what it sent (a vanished peer is eventually given up and its session, goroutines and blocked callers released)", Run: r15_8},
 			{ID: "R15.7", Floor: 2, Text: "Session.Close takes no lock that Read/Write hold across a blocking wait", Run: r15_7},
 			{ID: "R15.4", Floor: 2, Text: "StreamUnderlay.Close and PacketUnderlay.Close: closeMutex held, done checked, conn.Set(Read)Deadline called before baseUnderlay.Close", Run: r15_4},
 		},
@@ -947,4 +948,53 @@ func polledChans(in ssa.Instruction) []*types.Var {
 		}
 	}
 	return out
+}
+
+
+// r15_8: a UDP session whose peer has vanished is released by the idle sweep
+// of PacketUnderlay.cleanSessions. Its own heartbeats keep lastTXTime fresh
+// for ever, so the sweep must look at lastRXTime alone: the code that decides
+// "idle" (cleanSessions, its Range callback and any helper they call) loads
+// lastRXTime and never lastTXTime.
+func r15_8(c *RC) {
+	p := c.P
+	fn := p.Fn(protoPkg, "PacketUnderlay.cleanSessions")
+	rx := p.Field(protoPkg, "Session", "lastRXTime")
+	tx := p.Field(protoPkg, "Session", "lastTXTime")
+	if fn == nil || rx == nil {
+		c.Anchor("PacketUnderlay.cleanSessions / Session.lastRXTime")
+		return
+	}
+	usesRX := false
+	var usesTX ssa.Instruction
+	removes := false
+	for _, f := range withHelpers(p, fn, 3) {
+		// RemoveSession itself is the releasing action, not part of the decision
+		if f.Name() == "RemoveSession" {
+			continue
+		}
+		instrs(f, func(_ *ssa.BasicBlock, _ int, in ssa.Instruction) {
+			if n, _ := atomicCallOn(in, rx); n == "Load" {
+				usesRX = true
+			}
+			if tx != nil {
+				if n, _ := atomicCallOn(in, tx); n == "Load" {
+					usesTX = in
+				}
+			}
+			if cl, ok := in.(ssa.CallInstruction); ok && calleeName(cl) == "RemoveSession" {
+				removes = true
+			}
+		})
+	}
+	switch {
+	case !removes:
+		c.Bad("idle-sweep-by-receipt", fn.Pos(), "cleanSessions no longer removes sessions")
+	case usesTX != nil:
+		c.Bad("idle-sweep-by-receipt", usesTX.Pos(), "the idle sweep takes the session's own last transmission into account: the 5 s heartbeat keeps lastTXTime fresh, so a session whose peer has vanished never looks idle, is never released, and a Read blocked on it never returns")
+	case !usesRX:
+		c.Bad("idle-sweep-by-receipt", fn.Pos(), "the idle sweep does not consult lastRXTime")
+	default:
+		c.OKH("idle-sweep-by-receipt", fn.Pos(), "idle = now - lastRXTime > idleSessionTimeout; lastTXTime takes no part")
+	}
 }
